@@ -663,6 +663,35 @@ func c01Presence(c *Ctx, pp *pop.Population, tr *an.Tracer, rule string) {
 		}
 	}
 	r.Check(maskOK, rule, "encoder:mask", c.pos(enc.Pos()), "the encoder sets flags |= 1 << tag.index (same field of the parsed tag as the decoder)")
+	// ... and sets it exactly when the field is not the zero value of its type: the decoder hands back a non-nil
+	// empty slice for a present empty vector, and that value must set the bit again (a home-made "is empty" test
+	// that counts elements turns present-and-empty into absent)
+	{
+		n := 0
+		var bad []string
+		for _, b := range enc.Blocks {
+			for _, in := range b.Instrs {
+				bo, ok := in.(*ssa.BinOp)
+				if !ok || bo.Op.String() != "|" || !(isBitMask(bo.X, tr) || isBitMask(bo.Y, tr)) {
+					continue
+				}
+				n++
+				// the not-zero edge of an IsZero test leads straight to the OR (no second condition in between),
+				// and nothing else leads there
+				ok2 := false
+				for _, i := range an.Ifs(enc) {
+					cd, okc := an.Classify(i)
+					if okc && strings.HasSuffix(cd.Kind, "(reflect.Value).IsZero") && cd.EdgeWhen(false).To() == bo.Block() && len(bo.Block().Preds) == 1 {
+						ok2 = true
+					}
+				}
+				if !ok2 {
+					bad = append(bad, "the bit set at "+c.pos(bo.Pos())+" is not decided by reflect.Value.IsZero of the field alone (the not-zero edge of that test must lead straight to it)")
+				}
+			}
+		}
+		r.Check(n > 0 && len(bad) == 0, rule, "encoder:bit-iff-not-zero", c.pos(enc.Pos()), strings.Join(bad, "; "))
+	}
 	// shape: is the emission of a tagged field decided by IsZero of that field (per field) or by the accumulated flags word (per group)?
 	shape := "unrecognised"
 	var shapeSite ssa.Instruction
@@ -855,6 +884,23 @@ func c01Primitives(c *Ctx, tr *an.Tracer) {
 		r.Check(len(diffs) == 0, "R01.P", "pair:"+p.put+"/"+p.pop, c.pos(w.Pos()), strings.Join(diffs, "; "))
 	}
 	// Int32 passes through PutUint / PopUint by sign-preserving conversions
+	// a Go string is a byte string: what PutString frames is the conversion of its argument and nothing else (a
+	// "repaired" UTF-8 sequence comes back as another string)
+	if w := c.fn("R01.P", load.TLPkg, "*Encoder", "PutString"); w != nil {
+		n := 0
+		for _, cs := range an.Calls(w) {
+			if !strings.HasSuffix(cs.Name, "Encoder).PutMessage") {
+				continue
+			}
+			n++
+			args := an.CallArgs(cs.Common)
+			cv, isCv := args[len(args)-1].(*ssa.Convert)
+			r.Check(isCv && len(w.Params) == 2 && cv.X == ssa.Value(w.Params[1]), "R01.P", "string:writer:bytes-as-given", c.pos(cs.Pos()), "PutString frames []byte(msg) of its own argument (no trimming, case folding or UTF-8 repair in between)")
+		}
+		if n == 0 {
+			r.Undecide("R01.P", "string:writer:bytes-as-given", c.pos(w.Pos()), "no PutMessage call in PutString")
+		}
+	}
 	if w := c.fn("R01.P", load.TLPkg, "*Encoder", "PutInt"); w != nil {
 		rd := c.fn("R01.P", load.TLPkg, "*Decoder", "PopInt")
 		ok := len(an.CallsNamed(w, "(*"+load.TLPkg+".Encoder).PutUint")) == 1 && rd != nil && len(an.CallsNamed(rd, "(*"+load.TLPkg+".Decoder).PopUint")) == 1
